@@ -6,7 +6,7 @@ the interval model of DESIGN.md section 5 (C08) over the boundary log."""
 import random
 
 from .. import instr, harness
-from ..harness import (Sweep, Ctx, ManualExecutor, call, check_common, begin, end, drive, Recorded,
+from ..harness import (Sweep, SweepNested, Ctx, ManualExecutor, call, check_common, begin, end, drive, Recorded,
                        UserErrorA, UserErrorB, OtherError, outcome, outcome_repr)
 from ..instr import LOG, TR, LM, Inconclusive
 
@@ -43,6 +43,14 @@ def cases(tier, seed):
     for trig, second in (("notify", "cancel2"), ("notify", "cancel1"), ("timer", "cancel2"), ("complete", "cancel2")):
         out.append({"name": "poll.multi-instr/worker/%s|%s" % (trig, second), "kind": "sweep", "victim": "worker", "trigger": trig,
                     "second": second, "cap": 60 if tier == "quick" else None, "multi": True, "gran": "instr"})
+    # both sides suspended: a client's cancel() at i, the poll thread (woken by notify / timer) at j, the client released first
+    for vict in ("cancel0", "cancel1", "cancel2"):
+        for second in ("notify", "timer"):
+            parts = 2 if tier == "quick" else 8
+            for part in range(parts):
+                out.append({"name": "poll.nested/client/%s|%s/%d" % (vict, second, part), "kind": "nested", "victim": "client", "trigger": vict,
+                            "second": second, "multi": True, "slice": [part, parts], "cap_a": 16 if tier == "quick" else None,
+                            "cap_b": 24 if tier == "quick" else None})
     cap = 22 if tier == "quick" else None
     for victim, trig in (("worker", "complete"), ("worker", "notify"), ("worker", "timer"), ("client", "complete"),
                          ("client", "cancel"), ("client", "notify")):
@@ -66,6 +74,7 @@ class PW(object):
         self.next_sleep = next_sleep
         self.sightings = {}
         self.poll_exc = {}
+        self.consulted_done = []
         self.first_yield = {}
         self.poll_fn = Recorded("poll", self._poll)
         self.cancel_fn = Recorded("cancel_fn", self._cancel)
@@ -111,7 +120,12 @@ class PW(object):
 
     def _cancel(self, idx, result):
         i = result[1] if isinstance(result, tuple) and len(result) == 2 else None
-        LOG.add("cancel_fn.arg", fut=i, result=result)
+        done = None
+        if isinstance(i, int) and i < len(self.futs):
+            done = self.futs[i]["fut"].done()
+        LOG.add("cancel_fn.arg", fut=i, result=result, done=done)
+        if done:
+            self.consulted_done.append(i)
         how = self.cancel_script.get(i, True)
         if how == "raise":
             raise UserErrorB("cancel_fn %s" % (i,))
@@ -319,6 +333,9 @@ class PW(object):
             rec = self.futs[i]
             if rec["delegate"] != "ok" or rec["elig_inv"] > c["start"]:
                 res.violation("cancel-fn/not-polling", "%s: cancel function consulted for future %d which is not in the polling stage" % (where, i))
+        for i in self.consulted_done:
+            res.violation("cancel-fn/after-resolved", "%s: cancel function consulted for future %d which was already done (%s) when the "
+                          "cancel function was called" % (where, i, outcome_repr(outcome(self.futs[i]["fut"]))))
         for rec in self.futs:
             i = rec["i"]
             how = self.cancel_script.get(i, True)
@@ -499,6 +516,29 @@ class PScenario(object):
             res.key("sweep", self.case["name"], info.get("site"))
 
 
+class NPScenario(PScenario):
+    def role_a(self, ctx):
+        return "V"
+
+    def role_x(self, ctx):
+        return ctx.w.worker_role
+
+    def start_a(self, ctx):
+        return ctx.actor("V", self.produce, ctx, self.case["trigger"]).go()
+
+    def intervene1(self, ctx):
+        self.produce(ctx, self.case["second"], alt=True)
+
+    def oracle(self, ctx, res, info):
+        info = dict(info, site=(info.get("site"), info.get("site2")))
+        for a in info.get("actors") or ():
+            if a is not None and a.error is not None:
+                res.violation("unexpected-exception/%s" % type(a.error).__name__, "%s: %r" % (self.case["name"], a.error), tb=getattr(a, "tb", None))
+        ctx.w.judge(res, self.case["name"], info)
+        if info.get("hit") and info.get("hit2"):
+            res.key("nested", self.case["name"], info.get("site"))
+
+
 def run_ctable(case, res):
     """cancel() at each stage (delegate pending / polling / resolved) x cancel function behaviour."""
     for behaviour in (True, False, "raise"):
@@ -541,6 +581,10 @@ def run_ctable(case, res):
 def run_case(case, res):
     if case["kind"] == "ctable":
         return run_ctable(case, res)
+    if case["kind"] == "nested":
+        rng = random.Random("c08n/%s/%s" % (case["seed"], case["name"]))
+        SweepNested(NPScenario(case), res, "vt", case["name"]).run(case["cap_a"], case["cap_b"], rng, per_site=1, a_slice=case["slice"])
+        return
     if case["kind"] == "gen":
         run_gen(case, res)
     else:
